@@ -219,6 +219,8 @@ structure Chan where
   nextId : Nat := 0
   lastB : Nat × Nat := (0, 1)    -- last commanded brightness as a fraction num / den
   cmd : Option Cmd := none       -- the latest command
+  maxFade : Nat := 0             -- `get_max_fade_ms()` in ticks: 0 = software fade, > 0 = the hardware fades itself
+  lastF : Nat := 0               -- the fade duration handed to the hardware together with `lastB` (unit 1/8000 ms)
   deriving DecidableEq, Repr
 
 /-- `if self.task: self.task.cancel()` -/
@@ -227,16 +229,21 @@ def Chan.cancelled (c : Chan) : List Task :=
   | some id => c.tasks.filter (fun t => decide (t.id ≠ id))
   | none => c.tasks
 
-/-- `set_fade` (after the D17 repair): the running task is cancelled by every command -/
+/-- `set_fade` as the code is (after the D17 repair: the running task is cancelled by every command).  The code computes
+`fade_ms = (target_time - current_time) / 1000.0` — seconds divided by 1000, not milliseconds (observed as D30, outside the
+property) — and starts the stepping task only when that number exceeds `max_fade_ms`: with `maxFade` in ticks of 1/8 s this
+is `T - now > 1000000 * maxFade` (for a software fade, `maxFade = 0`: whenever the fade has time left).  Otherwise the
+hardware is handed `(target, max(fade_ms, 0))` at once.  `lastF` is the fade duration handed over, in units of 1/8000 ms
+(so the value the code passes here is `T - now`, and a true tick is 1000000 units). -/
 def Chan.setFade (c : Chan) (now : Nat) (m : Cmd) : Chan × Bool :=
   let tasks := c.cancelled
   match m.tt with
   | some T =>
-    if now < T then
+    if now + 1000000 * c.maxFade < T then
       ({ c with tasks := tasks ++ [⟨c.nextId, m.sb, m.st, m.tb, T, now⟩], cur := some c.nextId,
                 nextId := c.nextId + 1, cmd := some m }, true)
-    else ({ c with tasks := tasks, cur := none, lastB := (m.tb, 255), cmd := some m }, false)
-  | none => ({ c with tasks := tasks, cur := none, lastB := (m.tb, 255), cmd := some m }, false)
+    else ({ c with tasks := tasks, cur := none, lastB := (m.tb, 255), lastF := T - now, cmd := some m }, false)
+  | none => ({ c with tasks := tasks, cur := none, lastB := (m.tb, 255), lastF := 0, cmd := some m }, false)
 
 def firstDue (now : Nat) : List Task → Option Task
   | [] => none
@@ -244,18 +251,25 @@ def firstDue (now : Nat) : List Task → Option Task
 
 def clampI (x hi : Int) : Nat := if x < 0 then 0 else if hi < x then hi.toNat else x.toNat
 
-/-- one iteration of `_fade` of the first due task: `(channel, num, den, finished)` -/
+/-- numerator (over `255 * (tt - st)`) of the brightness on the line `(st, sb) — (tt, tb)` at instant `at`, clamped -/
+def lineNum (sb st tb tt at_ : Nat) : Nat :=
+  clampI ((sb : Int) * ((tt : Int) - st) + ((tb : Int) - sb) * ((at_ : Int) - st)) (255 * (tt - st) : Nat)
+
+/-- one iteration of `_fade` of the first due task: `(channel, num, den, finished)`; the fade duration handed to the
+hardware with this brightness is `lastF` of the new channel state: the hardware is told to reach, `max_fade` from now,
+the brightness the logical fade has *then*; the last command carries the target and the remaining time -/
 def Chan.stepTask (c : Chan) (now interval : Nat) : Option (Chan × Nat × Nat × Bool) :=
   match firstDue now c.tasks with
   | none => none
   | some t =>
-    if now < t.tt then
+    if now + c.maxFade < t.tt then
       let den : Nat := 255 * (t.tt - t.st)
-      let num := clampI ((t.sb : Int) * ((t.tt : Int) - t.st) + ((t.tb : Int) - t.sb) * ((now : Int) - t.st)) den
+      let num := lineNum t.sb t.st t.tb t.tt (now + c.maxFade)
       some ({ c with tasks := c.tasks.map (fun x => if x.id = t.id then { x with due := now + interval } else x),
-                     lastB := (num, den) }, num, den, false)
+                     lastB := (num, den), lastF := 1000000 * c.maxFade }, num, den, false)
     else
-      some ({ c with tasks := c.tasks.filter (fun x => decide (x.id ≠ t.id)), lastB := (t.tb, 255) }, t.tb, 255, true)
+      some ({ c with tasks := c.tasks.filter (fun x => decide (x.id ≠ t.id)), lastB := (t.tb, 255),
+                     lastF := 1000000 * (t.tt - now) }, t.tb, 255, true)
 
 /-! ## a light with its channels -/
 
@@ -265,38 +279,70 @@ structure DSt where
   interval : Nat := 1
   chans : List Chan := []
   corr : List Nat := []          -- colour correction lookup (3 × 256 values, red then green then blue); [] = identity
+  style : Nat := 0               -- `rgbw_white_behavior` of a 4-channel light: 0 min_rgb, 1 duck_rgb, 2 white_only
+  bright : Nat := 4              -- global brightness factor in quarters (`machine.brightness` = bright / 4)
+  onC : RGB := (255, 255, 255)   -- `default_on_color`
   deriving Repr
 
 /-- `color_correct`: per-component table lookup -/
 def corrC (tab : List Nat) (c : RGB) : RGB :=
   (tab.getD c.1 c.1, tab.getD (256 + c.2.1) c.2.1, tab.getD (512 + c.2.2) c.2.2)
 
-def chanVal (nchan i : Nat) (c : RGB) : Nat :=
-  if nchan = 1 then min c.1 (min c.2.1 c.2.2)
+/-- `gamma_correct`: `int(x * factor)` per component with `factor = q / 4` (exact in binary floating point) -/
+def gammaC (q : Nat) (c : RGB) : RGB := if q = 4 then c else (c.1 * q / 4, c.2.1 * q / 4, c.2.2 * q / 4)
+
+/-- `default_on_color * (brightness / 255)` of `Light.on(brightness)` -/
+def mulC (c : RGB) (b : Nat) : RGB := (min (c.1 * b / 255) 255, min (c.2.1 * b / 255) 255, min (c.2.2 * b / 255) 255)
+
+def minC (c : RGB) : Nat := min c.1 (min c.2.1 c.2.2)
+
+/-- the four channels `(red, green, blue, white)` of an RGBW light for the (corrected) colour `c`, per
+`rgbw_white_behavior`: `min_rgb` — white duplicates the common part; `duck_rgb` — the common part moves to white;
+`white_only` — only pure greys use the white channel -/
+def rgbw (style : Nat) (c : RGB) : Nat × Nat × Nat × Nat :=
+  let m := minC c
+  if style = 1 then (c.1 - m, c.2.1 - m, c.2.2 - m, m)
+  else if style = 2 then (if c.1 = c.2.1 ∧ c.2.1 = c.2.2 then (0, 0, 0, c.1) else (c.1, c.2.1, c.2.2, 0))
+  else (c.1, c.2.1, c.2.2, m)
+
+def chanVal (nchan i style : Nat) (c : RGB) : Nat :=
+  if nchan = 1 then minC c
+  else if nchan = 4 then
+    let q := rgbw style c
+    if i = 0 then q.1 else if i = 1 then q.2.1 else if i = 2 then q.2.2.1 else q.2.2.2
   else if i = 0 then c.1 else if i = 1 then c.2.1 else c.2.2
 
-def cmdOf (tab : List Nat) (nchan i : Nat) : Target → Cmd
-  | .static c => ⟨chanVal nchan i (corrC tab c), 0, chanVal nchan i (corrC tab c), none⟩
-  | .fade sc st tc tt => ⟨chanVal nchan i (corrC tab sc), st, chanVal nchan i (corrC tab tc), some tt⟩
+/-- what `_schedule_update` does to a colour before it is split into channels: brightness factor, then the profile -/
+def outC (tab : List Nat) (q : Nat) (c : RGB) : RGB := corrC tab (gammaC q c)
+
+def cmdOf (tab : List Nat) (q nchan i style : Nat) : Target → Cmd
+  | .static c => ⟨chanVal nchan i style (outC tab q c), 0, chanVal nchan i style (outC tab q c), none⟩
+  | .fade sc st tc tt => ⟨chanVal nchan i style (outC tab q sc), st, chanVal nchan i style (outC tab q tc), some tt⟩
 
 /-- send one emitted target to every channel; answers which channels started a task -/
-def sendAll (tab : List Nat) (now nchan : Nat) (t : Target) : Nat → List Chan → List Chan × List Bool
+def sendAll (tab : List Nat) (q now nchan style : Nat) (t : Target) : Nat → List Chan → List Chan × List Bool
   | _, [] => ([], [])
   | i, c :: r =>
-    let (c', b) := c.setFade now (cmdOf tab nchan i t)
-    let (r', bs) := sendAll tab now nchan t (i + 1) r
+    let (c', b) := c.setFade now (cmdOf tab q nchan i style t)
+    let (r', bs) := sendAll tab q now nchan style t (i + 1) r
     (c' :: r', b :: bs)
 
 def DSt.apply (d : DSt) (res : LSt × List Target) : DSt × String :=
   match res.2 with
   | [] => ({ d with l := res.1 }, "upd -")
   | t :: _ =>
-    let (cs, bs) := sendAll d.corr res.1.now d.nchan t 0 d.chans
+    let (cs, bs) := sendAll d.corr d.bright res.1.now d.nchan d.style t 0 d.chans
     let show3 (c : RGB) : String := toString c.1 ++ " " ++ toString c.2.1 ++ " " ++ toString c.2.2
     let ts := match t with
       | .static c => show3 c ++ " -1 " ++ show3 c ++ " -1"
       | .fade sc st tc tt => show3 sc ++ " " ++ toString st ++ " " ++ show3 tc ++ " " ++ toString tt
-    ({ d with l := res.1, chans := cs }, "upd " ++ ts ++ " " ++ String.join (bs.map (fun b => if b then "t" else "i")))
+    -- the brightness pair (start, target; 0..255) handed to every hardware channel, after brightness factor,
+    -- correction profile and channel mapping
+    let per := String.join ((List.range d.nchan).map (fun i =>
+      let m := cmdOf d.corr d.bright d.nchan i d.style t
+      " " ++ toString m.sb ++ ":" ++ toString m.tb))
+    ({ d with l := res.1, chans := cs },
+     "upd " ++ ts ++ " " ++ String.join (bs.map (fun b => if b then "t" else "i")) ++ " |" ++ per)
 
 /-! ## line-protocol driver -/
 
@@ -312,6 +358,16 @@ def driverStep (d : DSt) (line : String) : DSt × String :=
   match (line.splitOn " ").map (fun w => (w, w.toNat?)) with
   | [("init", _), (_, some n), (_, some iv)] =>
     if n = 1 ∨ n = 3 then ({ l := {}, nchan := n, interval := iv, chans := List.replicate n {}, corr := [] }, "ok") else (d, "bad-op")
+  | [("init", _), (_, some n), (_, some iv), (_, some mf), (_, some style), (_, some q), (_, some r), (_, some g), (_, some b)] =>
+    -- channels, task interval, hardware max fade, rgbw style, brightness quarters, default_on_color
+    if (n = 1 ∨ n = 3 ∨ n = 4) ∧ style < 3 ∧ 1 ≤ q ∧ q ≤ 4 then
+      ({ l := {}, nchan := n, interval := iv, chans := List.replicate n { maxFade := mf }, corr := [], style := style,
+         bright := q, onC := (r, g, b) }, "ok")
+    else (d, "bad-op")
+  | [("on", _), (_, some br), (_, some fade), (_, some p), (_, some k), (_, some st)] =>
+    d.apply (stepColor d.l (mulC d.onC br) fade p k st)
+  | [("off", _), (_, some fade), (_, some p), (_, some k), (_, some st)] =>
+    d.apply (stepColor d.l off fade p k st)
   | [("adv", _), (_, some t)] =>
     if d.l.now ≤ t then ({ d with l := { d.l with now := t } }, "ok") else (d, "bad-op")
   | [("color", _), (_, some r), (_, some g), (_, some b), (_, some fade), (_, some p), (_, some k), (_, some st)] =>
@@ -339,7 +395,7 @@ def driverStep (d : DSt) (line : String) : DSt × String :=
     (d, "t" ++ String.join ((d.l.timers.filter (fun t => decide (t.2 ≤ d.l.now))).map (fun t => " " ++ toString t.1)))
   | [("hw", _)] =>
     (d, "h" ++ String.join (d.chans.map (fun c => " " ++ toString c.lastB.1 ++ "/" ++ toString c.lastB.2 ++ "/" ++
-      toString c.tasks.length)))
+      toString c.tasks.length ++ "/" ++ toString c.lastF)))
   | ("corr", _) :: rest =>
     if rest.length = 768 ∧ rest.all (fun w => w.2.isSome) then ({ d with corr := rest.map (fun w => w.2.getD 0) }, "ok")
     else (d, "bad-op")
